@@ -7,7 +7,7 @@ import mir_engine as MM
 
 # ---------------------------------------------------------------- harness tables
 # name -> (tier, timeout_s).  Timeouts are ~4x the time measured on the pinned tree.
-def kh(mod, names, tier="quick", timeout=600):
+def kh(mod, names, tier="quick", timeout=1500):
     return [(f"{mod}::{n}", tier, timeout) for n in names]
 
 K_C02 = kh("c02_layout", ["c02_layout_add_step", "c02_layout_two_fields", "c02_layout_union",
@@ -19,7 +19,7 @@ K_C05 = kh("c05_mirror", ["c05_opt_u8", "c05_opt_u16", "c05_opt_u32", "c05_opt_u
                           "c05_res_unit_unit", "c05_res_f32_char", "c05_res_opt_u16_bool", "c05_ver_u8_u64",
                           "c05_ver_u32_unit", "c05_ver_unit_unit", "c05_ver_unit_i16", "c05_ver_f64_bool",
                           "c05_ver_opt_u8_val3", "c05_ver_val9_u32", "c05_res_u64_val17"]) \
-    + kh("c15_list", ["c15_option_bool_elements"], "quick", 1200)    # List<Option<bool>> built in Rust: strides of the stored representation
+    + kh("c15_list", ["c15_option_bool_elements"], "quick", 2400)    # List<Option<bool>> built in Rust: strides of the stored representation
 
 
 LEX3 = ["c06_ipv6_3", "c06_ipv4_3", "c06_two_char_3", "c06_one_char_3", "c06_as_number_3", "c06_hex_number_3", "c06_number_3",
@@ -28,16 +28,16 @@ LEX3 = ["c06_ipv6_3", "c06_ipv4_3", "c06_two_char_3", "c06_one_char_3", "c06_as_
 LEX4 = ["c06_ipv6_4", "c06_ipv4_4", "c06_as_number_4", "c06_hex_number_4", "c06_number_4", "c06_string_4", "c06_char_4",
         "c06_keyword_or_ident_4", "c06_number_ascii_5", "c06_ipv4_ascii_5", "c06_f_string_part_4", "c06_err_span_4",
         "c06_shebang_4", "c06_parser_next_4"]
-K_C06 = kh("c06_lexer", LEX3, "quick", 1800) + kh("c06_lexer", LEX4, "thorough", 3600)
-K_C09 = kh("c09_grammar", ["c09_number_ascii_4", "c09_hex_asn_ascii_4", "c09_ident_3", "c09_precedence_table", "c09_quoted_ascii_5"], "quick", 1800) \
-    + kh("c09_grammar", ["c09_number_ascii_5", "c09_hex_asn_ascii_5", "c09_ident_4"], "thorough", 3600)
-K_C10 = kh("c10_builtins", ["c10_prefix_new_total_v4", "c10_prefix_new_total_v6"], "quick", 600)
-K_C17 = kh("c17_strings", ["c17_bytes_view_2", "c17_bytes_get_3", "c17_lines_get_2"], "quick", 1800) \
-    + kh("c17_strings", ["c17_bytes_view_3"], "thorough", 3600)
-K_C20 = kh("c20_memory", ["c20_memory_write_read", "c20_memory_rejects", "c20_memory_dangling_frame", "c20_memory_offset_twice"], "quick", 1200)
-K_C15 = kh("c15_list", ["c15_compute_capacity", "c15_eq_distinct_rust", "c15_eq_alias", "c15_eq_distinct_erased_len", "c15_eq_rust_lengths", "c15_option_bool_elements"], "quick", 1200)
+K_C06 = kh("c06_lexer", LEX3, "quick", 3600) + kh("c06_lexer", LEX4, "thorough", 5400)
+K_C09 = kh("c09_grammar", ["c09_number_ascii_4", "c09_hex_asn_ascii_4", "c09_ident_3", "c09_precedence_table", "c09_quoted_ascii_5"], "quick", 3600) \
+    + kh("c09_grammar", ["c09_number_ascii_5", "c09_hex_asn_ascii_5", "c09_ident_4"], "thorough", 5400)
+K_C10 = kh("c10_builtins", ["c10_prefix_new_total_v4", "c10_prefix_new_total_v6"], "quick", 1500)
+K_C17 = kh("c17_strings", ["c17_bytes_view_2", "c17_bytes_get_3", "c17_lines_get_2"], "quick", 3600) \
+    + kh("c17_strings", ["c17_bytes_view_3"], "thorough", 5400)
+K_C20 = kh("c20_memory", ["c20_memory_write_read", "c20_memory_rejects", "c20_memory_dangling_frame", "c20_memory_offset_twice"], "quick", 2400)
+K_C15 = kh("c15_list", ["c15_compute_capacity", "c15_eq_distinct_rust", "c15_eq_alias", "c15_eq_distinct_erased_len", "c15_eq_rust_lengths", "c15_option_bool_elements"], "quick", 2400)
 K_C16 = kh("c16_sched", ["c16_get_vs_push1_linearizable", "c16_len_vs_push1_linearizable",
-                         "c16_full_get_vs_push1_before_lock", "c16_full_get_vs_push1_after_release"], "quick", 2400) \
+                         "c16_full_get_vs_push1_before_lock", "c16_full_get_vs_push1_after_release"], "quick", 3600) \
     + kh("c16_sched", ["c16_get_vs_push4_realloc_site1"], "thorough", 5400)
 THOROUGH_MEM = {"c16_sched::c16_get_vs_push4_realloc_site1": 48, "c16_sched::c16_full_get_vs_push1_before_lock": 24,
                 "c16_sched::c16_full_get_vs_push1_after_release": 24}
@@ -183,7 +183,7 @@ def c10(res):
 
 
 def c15(res):
-    gen = [(f"c15_list_gen::{n}", t, 2400) for n, t in c15_generated()]
+    gen = [(f"c15_list_gen::{n}", t, 3600) for n, t in c15_generated()]
     r = kani_part(res, K_C15 + gen)
     finish_k(res, r,
              "one Kani harness per (element type, pre-state, operation-kind sequence) - the kinds are enumerated, element values and get "
@@ -234,6 +234,7 @@ def c17(res):
 def c20(res):
     r = kani_part(res, K_C20)
     MM.run_m(res)
+    MM.run_eq(res)
     finish_k(res, r,
              "Kani on the evaluator's checked memory model: all allocation sizes <= 16, offsets <= 17, widths {1,2,4,8}; 'must stop' harnesses count only the "
              "harness's own MUST-STOP assertion (the evaluator's asserts firing are the expected loud stops)",
@@ -290,6 +291,20 @@ def replay(pid, path):
             print(f"VIOLATION property={pid} replay={path}")
             return 1
         return 0
+    if obj.get("engine") == "irvalue-eq":
+        T.build()
+        sys.path.insert(0, os.path.join(VERIF, "tv"))
+        import tv as TV, irvalue_eq
+        d = os.path.join(BUILD, "irvalue_eq")
+        os.makedirs(d, exist_ok=True)
+        script = os.path.join(d, "replay.roto")
+        open(script, "w").write(obj["replay"]["script"])
+        rep = irvalue_eq.replay(TV.EXTRACT, script)
+        print("real evaluator / real JIT:", rep)
+        if rep.get("differs"):
+            print(f"VIOLATION property={pid} replay={path}")
+            return 1
+        return 0 if "error" not in rep else 2
     if obj.get("engine") == "builtins":
         T.build()
         sys.path.insert(0, os.path.join(VERIF, "tv"))
